@@ -661,7 +661,17 @@ def bucket_real(records, snap_pos_keys):
 TYPE_STRS_OK = ['utf8', 'gint', 'guint8', 'filename', 'gpointer', 'Foo.Obj', 'FooObj', 'Foo.Rec', 'Foo.Enum',
                 'GObject.Object', 'GLib.Variant', 'gboolean', 'gdouble', 'Foo.Cb', 'FooInt', 'GLib.List(utf8)',
                 'GLib.SList(Foo.Obj)', 'GLib.HashTable(utf8,gint)', 'GLib.Array(gint)', 'GLib.PtrArray(Foo.Obj)',
-                'GLib.ByteArray', 'GList(utf8)', 'GStrv', 'gintptr']
+                'GLib.ByteArray', 'GList(utf8)', 'GStrv', 'gintptr', 'Foo.Boxed', 'Foo.Uni']
+# what a resolvable (type T) override turns the value into, for the annotations whose validity depends on
+# the type (transfer, bare (out)): the statement lists "element and overridden types" among what is
+# reflected, and "valid for that value's ... type" is then a question about the OVERRIDDEN type.
+# Overrides to basic types, enums, callbacks and gpointer are left out (judged 'outside' as before).
+OVERRIDE_CLASS = {'utf8': 'string', 'filename': 'string', 'Foo.Obj': 'object', 'FooObj': 'object',
+                  'GObject.Object': 'object', 'GLib.Variant': 'variant', 'Foo.Rec': 'record', 'Foo.Boxed': 'record',
+                  'Foo.Uni': 'record', 'GLib.List(utf8)': 'container', 'GLib.SList(Foo.Obj)': 'container',
+                  'GLib.HashTable(utf8,gint)': 'container', 'GLib.Array(gint)': 'container',
+                  'GLib.PtrArray(Foo.Obj)': 'container', 'GLib.ByteArray': 'container', 'GList(utf8)': 'container',
+                  'GStrv': 'container'}
 TYPE_STRS_BAD = ['Bar.Baz', 'FooNope', 'utf8(gint)', 'GLib.List(utf8,gint)', 'gint,gint', 'GLib.HashTable(utf8)',
                  'GLib.PtrArray(gint)', 'GLib.ByteArray(gdouble)', 'GLib.List(FooNope)', '']
 ELEM_OK = ['utf8', 'gint', 'guint8', 'Foo.Obj', 'FooObj', 'Foo.Rec', 'filename', 'gpointer', 'GObject.Object',
@@ -801,7 +811,26 @@ def plausible(shape, depth, is_ret, kind):
     return out
 
 
+def gen_override_pair(rng, is_ret):
+    """a resolvable (type T) override together with an annotation whose validity depends on the type"""
+    t = rng.choice(sorted(OVERRIDE_CLASS))
+    cls = OVERRIDE_CLASS[t]
+    fits = {'container': ['transfer container', 'transfer container', 'transfer full', 'transfer none'],
+            'object': ['transfer floating', 'transfer floating', 'transfer full', 'transfer none'],
+            'variant': ['transfer floating', 'transfer full', 'transfer none'],
+            'record': ['transfer full', 'transfer none'] + ([] if is_ret else ['out', 'out', 'out']),
+            'string': ['transfer full', 'transfer none']}[cls]
+    second = rng.choice(fits) if rng.random() < 0.85 else rng.choice(['transfer container', 'transfer floating'])
+    anns = ['type ' + t, second]
+    if rng.random() < 0.3:
+        anns.append(rng.choice(['skip', 'nullable', 'attributes a.b=v', 'not nullable']))
+    rng.shuffle(anns)
+    return anns
+
+
 def gen_part_anns(rng, shape, depth, is_ret, kind, names, self_name, inst_name, p_valid):
+    if rng.random() < 0.07:
+        return gen_override_pair(rng, is_ret)
     k = rng.choice([0, 1, 1, 2, 2, 3, 4])
     anns = []
     used = set()
@@ -991,7 +1020,8 @@ def compare(res, model):
 GIR_NAME = {'utf8': 'utf8', 'gint': 'gint', 'guint8': 'guint8', 'filename': 'filename', 'gpointer': 'gpointer',
             'Foo.Obj': 'Obj', 'FooObj': 'Obj', 'Foo.Rec': 'Rec', 'Foo.Enum': 'Enum', 'GObject.Object': 'GObject.Object',
             'GLib.Variant': 'GLib.Variant', 'gboolean': 'gboolean', 'gdouble': 'gdouble', 'Foo.Cb': 'Cb',
-            'FooInt': 'Int', 'gchar': 'gchar', 'gint8': 'gint8', 'gintptr': 'gintptr'}
+            'FooInt': 'Int', 'gchar': 'gchar', 'gint8': 'gint8', 'gintptr': 'gintptr', 'Foo.Boxed': 'Boxed',
+            'Foo.Uni': 'Uni'}
 RECORDISH = ('FooRec', 'FooBoxed', 'FooUni', 'GValue', 'GError', 'FooOpaque', 'FooRecAlias')
 TRANSFER_MODES = ('none', 'full', 'container', 'floating')
 SCOPES = ('call', 'async', 'notified', 'forever')
@@ -1091,6 +1121,9 @@ def judge(case, out, site, idx, all_sites):
     ty = site.node['ty']
     tyattrs = dict((k, v) for k, v in ty['attrs']) if ty else {}
     has_type = site.has('type')
+    ovr = None
+    if has_type and len(site.opts('type')) == 1 and not site.has('array') and not site.has('element-type'):
+        ovr = OVERRIDE_CLASS.get(site.opts('type')[0])
     eff = site.effdir()
     outish = site.kind == 'param' and eff in ('out', 'inout')
     length_targets = set()
@@ -1150,7 +1183,16 @@ def judge(case, out, site, idx, all_sites):
             elif opts == ['callee-allocates']:
                 checks.append(('caller-allocates="0"', a.get('caller-allocates') == '0'))
             elif opts == []:
-                if not has_type and site.ctype['base'] in RECORDISH and site.ctype.get('carray') is None \
+                if ovr == 'record' and site.ctype.get('carray') is None and kind != 'signal' \
+                        and shape not in ('handle', 'aliasstr', 'strv', 'unresolved'):
+                    # overridden to a struct / union / boxed type: the allocation rule is that of the struct
+                    if depth <= 1:
+                        checks.append(('caller-allocates="1" (struct by (type) override, at most one indirection)',
+                                       a.get('caller-allocates') == '1'))
+                    else:
+                        checks.append(('caller-allocates="0" (struct by (type) override, double indirection)',
+                                       a.get('caller-allocates') == '0'))
+                elif not has_type and site.ctype['base'] in RECORDISH and site.ctype.get('carray') is None \
                         and kind != 'signal':
                     if depth == 1:
                         checks.append(('caller-allocates="1" (struct, single indirection)', a.get('caller-allocates') == '1'))
@@ -1203,11 +1245,22 @@ def judge(case, out, site, idx, all_sites):
     if name == 'transfer':
         if len(opts) != 1 or opts[0] not in TRANSFER_MODES:
             return ('invalid', ['transfer-ownership'])
-        if has_type:
-            return ('outside', 'type overridden')
         if is_len_target:
             return ('outside', 'also a length parameter')
         mode = opts[0]
+        if has_type:
+            # validity and expectation follow the overridden type when it is one of the resolvable classes
+            if ovr is None:
+                return ('outside', 'type overridden (class of the override not judged)')
+            if mode == 'container':
+                if ovr == 'container':
+                    return ('valid:override', [('transfer-ownership="container"', a.get('transfer-ownership') == 'container')])
+                return ('invalid', ['transfer-ownership'])
+            if mode == 'floating':
+                if ovr in ('object', 'variant'):
+                    return ('valid:override', [('transfer-ownership="none"', a.get('transfer-ownership') == 'none')])
+                return ('invalid', ['transfer-ownership'])
+            return ('valid:override', [('transfer-ownership="%s"' % mode, a.get('transfer-ownership') == mode)])
         if shape in ('unresolved', 'void', 'handle', 'aliasstr', 'callback', 'anyptr') and mode != 'floating':
             return ('outside', 'transfer on %s' % shape)
         if mode == 'floating':
@@ -1700,7 +1753,9 @@ def table_cases():
                'transfer floating', 'transfer bogus', 'transfer', 'skip', 'array', 'array length=n',
                'array fixed-size=4', 'array zero-terminated=1', 'array zero-terminated=0', 'array zero-terminated',
                'array length=n zero-terminated=1', 'array fixed-size=x', 'element-type utf8', 'element-type utf8 gint',
-               'type utf8', 'type Foo.Obj', 'type Bar.Baz', 'scope call', 'scope async', 'scope notified',
+               'type utf8', 'type Foo.Obj', 'type Foo.Rec', 'type Bar.Baz', 'type GLib.List(utf8)|transfer container',
+               'type GLib.HashTable(utf8,gint)|transfer container', 'type Foo.Rec|transfer full',
+               'type Foo.Obj|transfer floating', 'type Foo.Rec|transfer container', 'scope call', 'scope async', 'scope notified',
                'scope forever', 'scope bogus', 'closure data', 'destroy notify', 'attributes a.b=v']
     cid = 0
     for base in reps:
@@ -1711,7 +1766,7 @@ def table_cases():
                         continue
                     cid += 1
                     t = {'base': base, 'depth': depth, 'const': False}
-                    anns = [ann] + ({'in': [], 'out': ['out'], 'inout': ['inout'], 'ret': []}[where]
+                    anns = ann.split('|') + ({'in': [], 'out': ['out'], 'inout': ['inout'], 'ret': []}[where]
                                     if ann.split(' ')[0] not in ('in', 'out', 'inout') else [])
                     if where in ('out', 'inout') and ann.split(' ')[0] in ('in', 'out', 'inout'):
                         continue
